@@ -2,7 +2,7 @@
    outside finding class F18 (names_ok_fields); and refuse a value lacking a required field. *)
 From Coq Require Import List String Ascii ZArith Bool Lia.
 From AC Require Import Base.Sexp Base.Json Base.Strs Gql.InSchema Gql.InCoerce
-  Model.Names Model.Defaults Model.Inputs Py.PyEval Proofs.InputsP.
+  Model.Names Model.Defaults Model.Inputs Py.PyEval Proofs.InputsP Proofs.FreshP.
 Import ListNotations.
 Local Open Scope string_scope.
 
@@ -115,32 +115,58 @@ Proof.
 Qed.
 
 (* ---------- names ---------- *)
-Lemma names_ok_pairs snake fs : names_ok_fields snake fs = true ->
+(* the guard speaks about cross-reads and GraphQL-name uniqueness; distinct Python names come from FreshP *)
+Lemma names_ok_go_pairs snake all fs : names_ok_go snake all fs = true ->
   forall f g, In f fs -> In g fs -> i_name f <> i_name g ->
-  py_name snake (i_name f) <> py_name snake (i_name g) /\ py_name snake (i_name f) <> i_name g.
+  fname snake all (i_name f) <> i_name g.
 Proof.
   induction fs as [|h r IH]; simpl; intros H f g Hf Hg Hn; [contradiction|].
   apply andb_true_iff in H as [H1 H2]. rewrite forallb_forall in H1.
   destruct Hf as [<-|Hf], Hg as [<-|Hg].
   - congruence.
   - specialize (H1 g Hg). repeat (apply andb_true_iff in H1 as [H1 ?]).
-    split; intro X; rewrite X in *; rewrite ?String.eqb_refl in *; simpl in *; discriminate.
+    intro X; rewrite X in *; rewrite ?String.eqb_refl in *; simpl in *; discriminate.
   - specialize (H1 f Hf). repeat (apply andb_true_iff in H1 as [H1 ?]).
-    split; intro X; [rewrite <- X in * | rewrite X in *]; rewrite ?String.eqb_refl in *; simpl in *; discriminate.
+    intro X; rewrite X in *; rewrite ?String.eqb_refl in *; simpl in *; discriminate.
   - apply IH; assumption.
 Qed.
 
-Lemma effective_gen s cs snake fs : names_ok_fields snake fs = true ->
-  effective (map (gen_field s cs snake) fs) = map (gen_field s cs snake) fs.
+Lemma names_ok_go_nodup snake all fs : names_ok_go snake all fs = true -> NoDup (map i_name fs).
 Proof.
-  induction fs as [|h r IH]; simpl; intros H; [reflexivity|].
-  apply andb_true_iff in H as [H1 H2]. rewrite (IH H2).
-  replace (existsb _ (map (gen_field s cs snake) r)) with false; [reflexivity|].
+  induction fs as [|h r IH]; simpl; intros H; [constructor|].
+  apply andb_true_iff in H as [H1 H2]. constructor; [|apply IH; exact H2].
+  intro X. apply in_map_iff in X as [g [E Hg]]. rewrite forallb_forall in H1. specialize (H1 g Hg).
+  repeat (apply andb_true_iff in H1 as [H1 ?]). rewrite E, String.eqb_refl in *. discriminate.
+Qed.
+
+Lemma names_ok_nodup snake fs : names_ok_fields snake fs = true -> NoDup (map i_name fs).
+Proof. apply names_ok_go_nodup. Qed.
+
+Lemma names_ok_pairs snake fs : names_ok_fields snake fs = true ->
+  forall f g, In f fs -> In g fs -> i_name f <> i_name g ->
+  fname snake fs (i_name f) <> fname snake fs (i_name g) /\ fname snake fs (i_name f) <> i_name g.
+Proof.
+  intros N f g Hf Hg Hn. split; [|apply (names_ok_go_pairs snake fs fs N f g Hf Hg Hn)].
+  intro E. apply Hn.
+  pose proof (fname_nodup snake fs (names_ok_nodup snake fs N)) as ND.
+  f_equal. apply (nodup_map_inj (fun f => fname snake fs (i_name f)) fs ND f g Hf Hg E).
+Qed.
+
+Lemma effective_nodup l : NoDup (map p_name l) -> effective l = l.
+Proof.
+  induction l as [|h r IH]; simpl; intros ND; [reflexivity|].
+  inversion ND as [|? ? NI ND']; subst. rewrite (IH ND').
+  replace (existsb _ r) with false; [reflexivity|].
   symmetry. apply not_true_iff_false. intros X. apply existsb_exists in X as [g [Hg Eg]].
-  apply in_map_iff in Hg as [g0 [<- Hg0]]. rewrite !gen_field_name in Eg.
-  rewrite forallb_forall in H1. specialize (H1 g0 Hg0).
-  repeat (apply andb_true_iff in H1 as [H1 ?]).
-  apply String.eqb_eq in Eg. rewrite Eg in H1. rewrite String.eqb_refl in H1. discriminate.
+  apply String.eqb_eq in Eg. apply NI. rewrite <- Eg. apply in_map. exact Hg.
+Qed.
+
+Lemma effective_gen s cs snake fs : names_ok_fields snake fs = true ->
+  effective (map (gen_field s cs snake fs) fs) = map (gen_field s cs snake fs) fs.
+Proof.
+  intros N. apply effective_nodup. rewrite map_map.
+  rewrite (map_ext _ (fun f => fname snake fs (i_name f))) by (intros; apply gen_field_name).
+  apply fname_nodup. apply (names_ok_nodup snake fs N).
 Qed.
 
 Lemma jlookup_in k kv v : jlookup k kv = Some v -> In k (map fst kv).
@@ -166,13 +192,13 @@ Qed.
 
 (* what the generated field reads from a wire-form object: exactly the value under its GraphQL name *)
 Lemma field_input_gen s cs snake fs kv f : names_ok_fields snake fs = true -> known_keys fs kv = true ->
-  In f fs -> field_input (gen_field s cs snake f) kv = jlookup (i_name f) kv.
+  In f fs -> field_input (gen_field s cs snake fs f) kv = jlookup (i_name f) kv.
 Proof.
   intros N K Hf. unfold field_input. rewrite gen_field_alias, gen_field_name.
-  destruct (py_name snake (i_name f) =? i_name f) eqn:E.
+  destruct (fname snake fs (i_name f) =? i_name f) eqn:E.
   - apply String.eqb_eq in E. rewrite E. reflexivity.
   - destruct (jlookup (i_name f) kv) eqn:L; [reflexivity|].
-    destruct (jlookup (py_name snake (i_name f)) kv) eqn:L2; [|reflexivity]. exfalso.
+    destruct (jlookup (fname snake fs (i_name f)) kv) eqn:L2; [|reflexivity]. exfalso.
     destruct (known_key fs kv _ _ K L2) as [g [Hg Eg]].
     assert (i_name f <> i_name g).
     { intro X. rewrite <- X in Eg. rewrite <- Eg in E. rewrite String.eqb_refl in E. discriminate. }
@@ -240,11 +266,11 @@ Proof.
       destruct Hf as [<-|Hf]; [rewrite L; right; exact NN | eapply IH; eauto].
 Qed.
 
-Lemma has_default_gen s cs snake f :
-  has_default (gen_field s cs snake f) = negb (is_nonnull (i_type f) && match i_default f with None => true | _ => false end).
+Lemma has_default_gen s cs snake fs f :
+  has_default (gen_field s cs snake fs f) = negb (is_nonnull (i_type f) && match i_default f with None => true | _ => false end).
 Proof.
-  unfold has_default. pose proof (required_iff s cs snake f) as R.
-  destruct (rhs_default (p_value (gen_field s cs snake f))) eqn:E.
+  unfold has_default. pose proof (required_iff s cs snake fs f) as R.
+  destruct (rhs_default (p_value (gen_field s cs snake fs f))) eqn:E.
   - destruct R as [R _]. destruct (R eq_refl) as [-> ->]. reflexivity.
   - destruct (is_nonnull (i_type f)) eqn:N; [|reflexivity]. destruct (i_default f) eqn:D; [reflexivity|].
     destruct R as [_ R]. discriminate (R (conj eq_refl eq_refl)).
@@ -350,15 +376,15 @@ Qed.
 Theorem refuses_missing_required s cs snake nm fs f kv n :
   kind_of s nm = KInput fs -> names_ok_fields snake fs = true -> In f fs ->
   is_nonnull (i_type f) = true -> i_default f = None ->
-  jlookup (i_name f) kv = None -> jlookup (py_name snake (i_name f)) kv = None ->
+  jlookup (i_name f) kv = None -> jlookup (fname snake fs (i_name f)) kv = None ->
   accepts n (env_of s cs snake) (AClass nm) (JObj kv) = false.
 Proof.
   intros K NOK Hf NN D L1 L2. rewrite accepts_class. destruct n as [|n']; [reflexivity|].
   pose proof (kind_of_lookup s nm) as KL. rewrite K in KL.
   simpl e_classes. unfold gen_classes. rewrite (classes_lookup s cs snake s nm fs KL). simpl c_fields.
   rewrite (effective_gen s cs snake fs NOK).
-  apply (forallb_false_in _ _ (gen_field s cs snake f)); [apply in_map; exact Hf|].
+  apply (forallb_false_in _ _ (gen_field s cs snake fs f)); [apply in_map; exact Hf|].
   unfold field_input. rewrite gen_field_alias, gen_field_name.
-  destruct (py_name snake (i_name f) =? i_name f); rewrite ?L1, ?L2;
+  destruct (fname snake fs (i_name f) =? i_name f); rewrite ?L1, ?L2;
     rewrite has_default_gen, NN, D; reflexivity.
 Qed.
